@@ -210,7 +210,8 @@ NESTED_FIXED = [
 
 
 BOUNDARY_PAIRS = [[-(1 << 31), (1 << 31) - 1], [(1 << 31) - 1, -(1 << 31)], [-1, 0], [0, -1], [5, 5], [-8, 1], [-8, 31], [7, 3],
-                  [-7, 3], [7, -3], [-7, -3], [-(1 << 31), 1], [1, 31], [-1, 31], [123456789, 7], [-123456789, 7]]
+                  [-7, 3], [7, -3], [-7, -3], [-(1 << 31), 1], [1, 31], [-1, 31], [123456789, 7], [-123456789, 7],
+                  [2, 3], [0, 1], [-1, -2], [1, 3]]  # the last four: operands that differ in bit 0 / bit 1 only
 
 
 # ------------------------------------------------------------------------------------------------
